@@ -645,14 +645,16 @@ func outOfFlowLayout(context *layoutContext, box bo.Box, index int, child_ Box, 
 			pageBreak := blockLevelPageBreak(lastInFlowChild, child_)
 			resumeAt = tree.ResumeStack{index: nil}
 			stop = true
+			// The whole child rendering is dropped (the float starts again on the
+			// next page): its continuation must not be registered as broken.
+			newChild = nil
+			outOfFlowLayoutResumeAt = nil
 			if len(*newChildren) != 0 && avoidPageBreak(pageBreak, context) {
 				// Can’t break inside float, find an earlier page break.
 				r1, r2 := findEarlierPageBreak(context, *newChildren, absoluteBoxes, fixedBoxes)
 				if r1 != nil || r2 != nil {
-					// Earlier page break found, drop whole child rendering.
+					// Earlier page break found
 					*newChildren, resumeAt = r1, r2
-					newChild = nil
-					outOfFlowLayoutResumeAt = nil
 				}
 			}
 		}
